@@ -14,9 +14,10 @@ import conv, gen, spec
 META = dict(
     level='proof',
     rule='one case = (sample split over demes, deme names, model, state space kind, two epochs of algebraically '
-         'generic rates); exhaustive over the bound of the property in the thorough tier, all small cases plus a '
-         'seeded third of the large ones in the quick tier; non-trivial = at least 3 states',
+         'generic rates); exhaustive over the bound of the property in both tiers (n<=5 x <=3 demes x 3 models x 2 spaces; two loci n<=4 x <=2 '
+         'demes x n_unlinked in {0,1,n}); non-trivial = at least 3 states',
     exhaustive_thorough=True,
+    exhaustive_quick=True,
     trusted_base=['PT3: the structured Lambda-coalescent / two-locus ARG is the particle system of PGProofs.Labelled '
                   '(modelled, textbook)', 'Python hash of state bytes does not collide (State.__eq__ compares hashes)'],
     assumptions=['rates are compared to relative 1e-11 (float rounding of rate/time_scale)'],
@@ -180,12 +181,11 @@ def one(ctx, c):
 def run(ctx):
     import check
     cs = cases(ctx)
-    if ctx.quick:
-        small = [c for c in cs if size_estimate(c) <= 40]
-        large = [c for c in cs if size_estimate(c) > 40]
-        ctx.rng.shuffle(large)
-        cs = small + large[:len(large) // 3]
-        cs = [c for c in cs if size_estimate(c) <= 400]
+    # the whole bound of the property takes ~15 s on 16 cores, so both tiers are exhaustive;
+    # the thorough tier repeats it with three independent draws of the generic rates
+    if not ctx.quick:
+        cs = cs * 3
+        cs = [dict(c, rep=i) for i, c in enumerate(cs)]
     ctx.rng.shuffle(cs)
     check.pmap(ctx, 'props.c04', 'one', cs, case_timeout=600)
 
